@@ -64,6 +64,7 @@ fn c06_maybe_add_rule_3_residents() { maybe_add_rule(Some(3)); }
 fn c06_maybe_add_rule_any_residents() { maybe_add_rule(None); }
 
 fn maybe_add_rule(fixed_n: Option<usize>) {
+    unsafe { vs::MONITOR = true; }
     let stats = stk::vk_fresh();
     // in-flight generalisation (RI7): the total may include the weight of an entry whose map entry another
     // thread's delete has already removed but whose weight it has not subtracted yet
@@ -151,6 +152,7 @@ fn maybe_add_rule(fixed_n: Option<usize>) {
     assert!(stats.weight_added().wrapping_sub(stats.weight_removed()) == (used1.wrapping_sub(used0)) as u64, "C16: weight added minus removed tracks the total through evictions");
     kani::cover!(w > max, "heavier than the cache");
     kani::cover!(w <= max && max - used0 == w, "exactly fits");
+    vs::edge_covers();
     core::mem::forget(policy);
 }
 
